@@ -508,9 +508,9 @@ static void do_floatlike(int fi, u16 x)
 //   every entry point : -60..60 (every exponent for which any half gives a finite non-zero result lies in -41..40)
 //   int boundaries    : INT_MIN, INT_MIN+1, -2^30, -2^16, -61, 61, 2^16, 2^30, INT_MAX-1, INT_MAX
 //   scalbln only      : +-(2^31-1), +-2^31, +-(2^31+1), +-(2^32-1), +-2^32, +-(2^32+1), +-(2^32+20), +-(2^32-20), +-2^33, +-2^40, +-2^48, +-2^62,
-//                       LONG_MAX-32 and LONG_MIN+16.  The last 31 values below LONG_MAX and the first 10 above LONG_MIN are NOT
-//                       in the alphabet: the unmodified code itself overflows a long there (`--exp` for subnormals, `exp += abs>>10`),
-//                       see the information note and NOTES.md.
+//                       and the extremes of long: LONG_MAX, LONG_MAX-1, LONG_MAX-31, LONG_MAX-32, LONG_MIN, LONG_MIN+1, LONG_MIN+9,
+//                       LONG_MIN+10, LONG_MIN+11 (before the repair 812cbf9 in /repo, `--exp` while normalising a subnormal and
+//                       `exp += abs>>10` overflowed a long within 31 of LONG_MAX / 10 of LONG_MIN: scalbln(1, LONG_MAX) was 0).
 // Oracle: the correctly rounded value of x * 2^e: for |e| <= 60 std::ldexp in double (exact) rounded once to binary16 (and compared
 // with ldexpf); for e > 60 a finite non-zero x overflows to infinity, for e < -60 it underflows to zero, sign kept; zero, infinity
 // and NaN are returned unchanged.
@@ -526,8 +526,8 @@ static std::vector<long> exp_alphabet(int which)
         long p31 = 1L << 31, p32 = 1L << 32;
         long lb[] = {p31 - 1, p31, p31 + 1, p32 - 1, p32, p32 + 1, p32 + 20, p32 - 20, 1L << 33, 1L << 40, 1L << 48, 1L << 62};
         for (long e : lb) { v.push_back(e); v.push_back(-e); }
-        v.push_back(LONG_MAX - 32);
-        v.push_back(LONG_MIN + 16);
+        long ext[] = {LONG_MAX, LONG_MAX - 1, LONG_MAX - 31, LONG_MAX - 32, LONG_MIN, LONG_MIN + 1, LONG_MIN + 9, LONG_MIN + 10, LONG_MIN + 11};
+        for (long e : ext) v.push_back(e);
     }
     return v;
 }
@@ -563,7 +563,7 @@ static void do_scale(int which, u16 x, long e)
     if (!same_h(bits(r), eb))
     {
         cnt(C_VIOL);
-        const char* ec = e < long(INT_MIN) ? "exp<INT_MIN" : e > long(INT_MAX) ? "exp>INT_MAX" : e == INT_MIN ? "INT_MIN" : e == INT_MAX ? "INT_MAX" :
+        const char* ec = e > LONG_MAX - 64 ? "exp~LONG_MAX" : e < LONG_MIN + 64 ? "exp~LONG_MIN" : e < long(INT_MIN) ? "exp<INT_MIN" : e > long(INT_MAX) ? "exp>INT_MAX" : e == INT_MIN ? "INT_MIN" : e == INT_MAX ? "INT_MAX" :
                          e < -25 ? "exp<-25" : e < 0 ? "exp<0" : e == 0 ? "exp=0" : e <= 25 ? "exp>0" : "exp>25";
         vf::violation(sigroot() + sc_names[which] + "/" + cls(x) + "," + ec + "/wrong-value",
                       std::string(sc_names[which]) + "(" + hx(x) + ", " + vf::str(e) + ") returned " + hx(bits(r)) + ", correctly rounded x*2^e (what " +
@@ -571,7 +571,7 @@ static void do_scale(int which, u16 x, long e)
                       {"--one", sc_names[which], hexs(x), vf::str(e)});
     }
     if (g_verbose) std::printf("%s(%s,%ld) = %s ref %s\n", sc_names[which], hx(x).c_str(), e, hx(bits(r)).c_str(), hx(eb).c_str());
-    if (x == 0x3555 && ((e == -17 && which == 0) || (e == (1L << 32) && which == 2)))
+    if (x == 0x3555 && ((e == -17 && which == 0) || ((e == (1L << 32) || e == LONG_MAX) && which == 2)))
         vf::sample(std::string(sc_names[which]) + "(" + hx(x) + ", " + vf::str(e) + ") = " + hx(bits(r)) + " ; correctly rounded x*2^e " + hx(eb), 3);
 }
 
@@ -1496,14 +1496,6 @@ int main(int argc, char** argv)
         }
         else return 3;
         label = "hypot3/" + what + (what == "cube0" || what == "cube1" || what == "nans" ? std::string() : "/" + a.at(2));
-    }
-    else if (a[0] == "--info")
-    {
-        // not judged (see NOTES.md): scalbln at the very ends of long, where the unmodified `exp += abs>>10` / `--exp` overflow a long
-        volatile long big = LONG_MAX, small = LONG_MIN;
-        u16 r1 = bits(half_float::scalbln(mk(0x3C00), big)), r2 = bits(half_float::scalbln(mk(0x0001), small));
-        vf::note("information only, not judged: scalbln(1, LONG_MAX) = " + hx(r1) + ", scalbln(2^-24, LONG_MIN) = " + hx(r2) +
-                 " (signed long overflow inside the unmodified scalbln; every other long exponent is judged, the alphabet reaches LONG_MAX-32 and LONG_MIN+16)");
     }
     else if (a[0] == "--alphabet-size") { std::printf("%zu %zu\n", alphabet(1).size(), alphabet(2).size()); return 0; }
     else return 3;
